@@ -1,4 +1,5 @@
-"""correspondence stream `path` (C09, C10): histories of move / rotate / rotate_from_* /
+"""correspondence stream `path` (C09, C10): histories of move / rotate / rotate_from_* (rotate_from_angax
+also with the angle/axis -> rotation vector conversion done by the model: op `angax`) /
 position= / orientation= / reset_path on a collection tree, executed on the real objects and on
 the Lean model (Model/Tree.lean through the driver), state compared after every operation.
 
@@ -6,6 +7,7 @@ Exact data: positions in Z^3, rotations in the octahedral group; real results ar
 integer grid (and rejected if farther than 1e-6) and compared exactly.
 """
 import json
+import struct
 import warnings
 
 import numpy as np
@@ -77,6 +79,8 @@ def gen_op(rng, addrs, nmax, p_bad):
             n = rng.choice([0, 1, 1, 2, 2, 3, 4]) if rng.random() < 0.9 else 5
             inp = ["v", [rvec(rng) for _ in range(n)]]
         return {"op": "move", "addr": addr, "inp": inp, "start": gen_start(rng, nmax)}
+    if k < 0.40:
+        return gen_angax(rng, addr, nmax)
     if k < 0.70:
         if rng.random() < 0.45:
             rot = ["s", rng.randrange(24)]
@@ -105,6 +109,49 @@ def gen_op(rng, addrs, nmax, p_bad):
     if k < 0.97:
         return {"op": "setori", "addr": addr, "val": [0_0], "single": True, "none": True}
     return {"op": "reset", "addr": addr}
+
+
+def gen_anchor(rng):
+    a = rng.random()
+    if a < 0.30:
+        return None
+    if a < 0.42:
+        return 0
+    if a < 0.68:
+        return ["s", rvec(rng)]
+    return ["v", [rvec(rng) for _ in range(rng.choice([1, 2, 2, 3, 4]))]]
+
+
+def gen_angax(rng, addr, nmax):
+    """rotate_from_angax on exact data: angles are multiples of 90 degrees (k * 90 with degrees=True, k * pi/2 in double with
+    degrees=False), the axis is 'x'/'y'/'z' or a (signed, scaled) coordinate axis as a vector; rejected axes: (0,0,0), other strings.
+    The model converts angle/axis to rotation vectors itself (Model/Angax.lean at Float) — nothing is precomputed here."""
+    if rng.random() < 0.45:
+        ang = ["s", rng.randint(-8, 8)]
+    else:
+        ang = ["v", [rng.randint(-8, 8) for _ in range(rng.choice([1, 1, 2, 2, 3, 4]))]]  # non-empty: rotate's domain (PathIn.WF); an empty Rotation with a vector anchor raises inside multi_anchor_behavior
+    a = rng.random()
+    if a < 0.35:
+        axis = rng.choice(["x", "y", "z"])
+    elif a < 0.88:
+        e = [0.0, 0.0, 0.0]
+        e[rng.randrange(3)] = rng.choice([1.0, -1.0, 2.0, -3.0, 5.0, 3.7, -0.25, 1e-3, -1e6])
+        axis = e
+    elif a < 0.95:
+        axis = [0.0, 0.0, 0.0]
+    else:
+        axis = rng.choice(["w", "X", "xy", ""])
+    return {"op": "angax", "addr": addr, "angle": ang, "axis": axis, "degrees": rng.random() < 0.6,
+            "anchor": gen_anchor(rng), "start": gen_start(rng, nmax)}
+
+
+def _bits(x):
+    return str(struct.unpack("<Q", struct.pack("<d", float(x)))[0])
+
+
+def angax_value(op, k):
+    """the angle handed to the real function and (as bit pattern) to the model"""
+    return float(90 * k) if op["degrees"] else float(k * (np.pi / 2))
 
 
 BAD_KINDS = [
@@ -180,6 +227,14 @@ def model_lines(h):
             else:
                 ea = enc_pathin_vec(an)
             lines.append(f"path rot {a} {enc_pathin_rot(op['rot'])} {ea} {enc_start(op['start'])}")
+        elif k == "angax":
+            an = op["anchor"]
+            ea = "n" if an is None else ("s 0 0 0" if an == 0 else enc_pathin_vec(an))
+            g = op["angle"]
+            eg = "s " + _bits(angax_value(op, g[1])) if g[0] == "s" else f"v {len(g[1])} " + " ".join(_bits(angax_value(op, q)) for q in g[1])
+            ax = op["axis"]
+            eax = ("str " + (ax if ax else "EMPTY")) if isinstance(ax, str) else "vec " + " ".join(_bits(c) for c in ax)
+            lines.append(f"path angax {a} {eg} {eax} {int(op['degrees'])} {ea} {enc_start(op['start'])}".replace("  ", " "))
         elif k == "setpos":
             lines.append(f"path setpos {a} {len(op['val'])} " + " ".join(fmt_vec(v) for v in op["val"]))
         elif k == "setori":
@@ -362,6 +417,13 @@ def real_lines(h):
                 obj.move(inp, start="auto" if op["start"] is None else op["start"])
             elif k == "rot":
                 call_rotate(obj, op)
+            elif k == "angax":
+                an = op["anchor"]
+                anchor = None if an is None else (0 if an == 0 else an[1])
+                g = op["angle"]
+                angle = angax_value(op, g[1]) if g[0] == "s" else [angax_value(op, q) for q in g[1]]
+                axis = op["axis"] if isinstance(op["axis"], str) else tuple(op["axis"])
+                obj.rotate_from_angax(angle, axis, anchor=anchor, start="auto" if op["start"] is None else op["start"], degrees=op["degrees"])
             elif k == "setpos":
                 obj.position = op["val"][0] if op.get("flat") else op["val"]
             elif k == "setori":
@@ -419,7 +481,7 @@ def shrink(h):
 def run_stream(ctx, n_hist, n_ops, equal_lengths_share=0.3, corpus=None):
     """returns stats dict; appends to ctx.broken on disagreement"""
     stats = {"histories": 0, "ops": 0, "op_kinds": {}, "err_kinds": {}, "forms": {}, "max_path_len": 0,
-             "tree_sizes": {}, "disagreements": 0, "distinct_states": 0}
+             "tree_sizes": {}, "disagreements": 0, "distinct_states": 0, "angax": {}}
     seen_states = set()
     samples = []
     hists = list(corpus or [])
@@ -443,6 +505,12 @@ def run_stream(ctx, n_hist, n_ops, equal_lengths_share=0.3, corpus=None):
             stats["op_kinds"][op["op"]] = stats["op_kinds"].get(op["op"], 0) + 1
             if op["op"] == "rot":
                 stats["forms"][op.get("form")] = stats["forms"].get(op.get("form"), 0) + 1
+            if op["op"] == "angax":
+                ax = op["axis"]
+                key = ("axis-str" if ax in ("x", "y", "z") else "axis-bad-str") if isinstance(ax, str) else ("axis-zero" if not any(ax) else "axis-vec")
+                key += ":scalar" if op["angle"][0] == "s" else ":vector"
+                key += ":deg" if op["degrees"] else ":rad"
+                stats["angax"][key] = stats["angax"].get(key, 0) + 1
         for e in errs:
             key = f"{e[0]}:{e[1]}:{e[2]}"
             stats["err_kinds"][key] = stats["err_kinds"].get(key, 0) + 1
